@@ -110,7 +110,7 @@ class Check:
                     verdicts[tid].append({"model": m, "clause": f[0],
                                           "detail": f[1]})
         for ev in events:
-            if ev["tid"] not in verdicts:
+            if ev.get("op") == "globals" or ev["tid"] not in verdicts:
                 continue
             fails = verdicts[ev["tid"]]
             mach = [f for f in fails if str(f["clause"]).startswith("MACHINERY")]
@@ -123,6 +123,14 @@ class Check:
             else:
                 self.report(ev, fails)
         return verdicts
+
+    def judge_with_header(self, header, events, **kw):
+        """Judge events that refer to shared (global) models: the header
+        record goes first, it is not an event."""
+        hdr = dict(header)
+        hdr.setdefault("tid", 0)
+        hdr.setdefault("models", [])
+        return self.judge(events=[hdr] + list(events), **kw)
 
     # --------------------------------------------------------- verdicts ---
     def match_known(self, key, clauses=()):
